@@ -78,19 +78,24 @@ def run(ctx):
                  'the yield happens on the Ok edge of registration only; a request reusing an in-flight id is ignored', [pn.loc(s) for _, s in rets] or [pn.loc(t)])
 
     # (1c) every Request message read is registered: no path from the Request arm skips the registration
-    tp = [(bb, t) for bb, t in pn.calls() if callee_is(t, 'Stream::poll_next') and 'Fuse<' in (t.get('self_ty') or '')]
-    regs = [bb for bb, t in pn.calls() if F.callee_fn(t) is reg]
+    # (judged in the body that polls the transport: the stream's poll itself or a private helper it delegates the inbound step to)
+    tb = pn
+    for g_ in reach:
+        if any(callee_is(t_, 'Stream::poll_next') and 'Fuse<' in (t_.get('self_ty') or '') for _, t_ in g_.calls()):
+            tb = g_
+    tp = [(bb, t) for bb, t in tb.calls() if callee_is(t, 'Stream::poll_next') and 'Fuse<' in (t.get('self_ty') or '')]
+    regs = [bb for bb, t in tb.calls() if F.callee_fn(t) is reg or (F.callee_fn(t) is not None and F.callee_fn(t).id != tb.id and any(x.id == reg.id for x in reachable_local_fns(F, F.callee_fn(t), depth=2)))]
     ok = len(tp) == 1 and len(regs) >= 1
     arm = None
     if ok:
-        item = ('call', pn.id, tp[0][0])
-        for i, b in enumerate(pn.blocks):
+        item = ('call', tb.id, tp[0][0])
+        for i, b in enumerate(tb.blocks):
             if b['cleanup'] or b['term']['k'] != 'switch':
                 continue
             d = b['term']['discr']
             if d['k'] not in ('copy', 'move'):
                 continue
-            tt = P.operand(pn, d, at=i)
+            tt = P.operand(tb, d, at=i)
             if tt[0] != 'discr':
                 continue
             ety = None
@@ -105,9 +110,9 @@ def run(ctx):
                 vals = variant_values(F, ety, ['Request'])
                 if vals:
                     arm = dict((v, x) for v, x in b['term']['targets']).get(vals[0], b['term']['otherwise'])
-        ok = arm is not None and cfg.all_paths_pass(pn, arm, set(cfg.exits(pn)) | {tp[0][0]}, set(regs))
+        ok = arm is not None and cfg.all_paths_pass(tb, arm, set(cfg.exits(tb)) | {tp[0][0]}, set(regs))
     R.ob('C08.yield', ('<BaseChannel as Stream>::poll_next', 'every request read is registered'), ok,
-         'every path from the Request arm of the message just read goes through the registration (no request is silently discarded before the id lookup)', [pn.loc(pn.d)])
+         'every path from the Request arm of the message just read goes through the registration (no request is silently discarded before the id lookup)', [tb.loc(tb.d)])
 
     # (2b) "only a request whose id is still in flight may be ignored": a Cancel read from the transport takes effect before the next message is read —
     # the removal is called in the Cancel arm itself with the id just read, on every path from the arm to the next read / return.  (Deferring it through a
@@ -116,13 +121,13 @@ def run(ctx):
     ok = bool(cs)
     if ok and len(tp) == 1:
         carm = None
-        for i, b in enumerate(pn.blocks):
+        for i, b in enumerate(tb.blocks):
             if b['cleanup'] or b['term']['k'] != 'switch':
                 continue
             d_ = b['term']['discr']
             if d_['k'] not in ('copy', 'move'):
                 continue
-            tt = P.operand(pn, d_, at=i)
+            tt = P.operand(tb, d_, at=i)
             if tt[0] != 'discr':
                 continue
             ety = None
@@ -137,11 +142,11 @@ def run(ctx):
                 vals = variant_values(F, ety, ['Cancel'])
                 if vals:
                     carm = dict((v, x) for v, x in b['term']['targets']).get(vals[0], b['term']['otherwise'])
-        in_pn = set(S.cancel_blocks)
-        ok = carm is not None and bool(in_pn) and cfg.all_paths_pass(pn, carm, set(cfg.exits(pn)) | {tp[0][0]}, in_pn)
+        in_pn = S.cancel_blocks_in(tb)
+        ok = carm is not None and bool(in_pn) and cfg.all_paths_pass(tb, carm, set(cfg.exits(tb)) | {tp[0][0]}, in_pn)
     R.ob('C08.cancel', ('<BaseChannel as Stream>::poll_next', 'a Cancel read from the transport is applied before the next message is read'), ok,
          'every path from the Cancel arm of the message just read calls the table\'s aborting removal with that id before the transport is read again or the poll returns',
-         [g.loc(t) for g, _, t, _ in cs] or [pn.loc(pn.d)])
+         [g.loc(t) for g, _, t, _ in cs] or [tb.loc(tb.d)])
 
     # (3) typestate
     ex = S.execute
@@ -156,7 +161,8 @@ def run(ctx):
         R.ob('C08.once', ('Requests stream', 'not built in a loop of its own'), not cfg.on_cycle(g, i), 'one tracked request gives one in-flight request', [g.loc(s)])
 
     # (4) exactly one response with the request's id
-    exb = F.with_descendants(ex)
+    from .common import deep_bodies
+    exb = deep_bodies(F, ex)
     sends = [(g, bb, t) for g in exb for bb, t in g.calls() if callee_is(t, 'mpsc::Sender::send')]
     R.ob('C08.response', ('InFlightRequest::execute', 'one response send'), len(sends) == 1, 'execute hands over exactly one response', [g.loc(t) for g, _, t in sends] or [ex.loc(ex.d)])
     for g, bb, t in sends:
@@ -164,7 +170,7 @@ def run(ctx):
         rr = [r for r, _ in P.root(P.operand(g, t['args'][1], at=bb))]
         ok = len(rr) == 1 and P.unbound(rr[0])[0] == 'agg' and path_matches(P._agg_rv(P.unbound(rr[0]))['adt'], 'Response')
         if ok:
-            idr = P.root(P._field(rr[0], 'request_id'))
+            idr = P.root(P._field(rr[0], 'request_id'), through_params=True, callers={x.id for x in exb})   # through a named async fn / helper of execute
             ok = bool(idr) and all(r == ('param', ex.id, 1) and P.fpath(p) == ('request', 'id') for r, p in idr)
             mr = P.root(P._field(rr[0], 'message'))
             okm = bool(mr) and all(P.is_call(r, 'server::Serve::serve') and ('t', 'await') in p for r, p in mr)
